@@ -355,11 +355,16 @@ TRUSTED = [
     "Coq 8.16.1 kernel (vm_compute only in the non-vacuity Examples)",
     "driver model C09/Model.v written by hand from SymbolFile::parse (mod.rs) and circular 0.3.0; line recogniser C09/Grammar.v "
     "with record payloads and finish()/finish_item written by hand from parser.rs / types.rs / nom 7.1.3 (range maps: C08/Model.v, record "
-    "types: C11/Model.v); all tied to the code by the correspondence run only (full symbol table text compared)",
+    "types: C11/Model.v); tied to the code by the correspondence run (full symbol table text; every read() as (space offered, bytes returned) and "
+    "every callback slice length, as an event hash) and, for the loop of parse / parse_async and circular's index arithmetic, by "
+    "translate/symfile_loop.py + C09/Pins.v (conditions and flag assignments regenerated from the source, statement skeleton matched)",
     "circular::Buffer's contents are not modelled: data() is taken to be the input window that starts at total_consumed "
     "(FIFO contract); the harness checks the callback bytes against the input on every case",
     "extraction: ExtrOcamlBasic only; ocaml/zconv.ml + ocaml/c09|c10/main.ml; harness/src/symcase.rs (ChunkReader)",
-    "u64/usize counters (total_consumed, parser.lines) are unbounded Z in the model: they are bounded by the input length",
+    "u64/usize counters (total_consumed, parser.lines) are unbounded Z in the model; c09_counters_fit_u64 proves them <= |input| at every "
+    "loop head, so for inputs of fewer than 2^64 bytes no addition overflows in either profile",
+    "translate/symfile_loop.py: regex/brace-matching translator (template with holes for the conditions; a small Rust-expression parser); "
+    "the circular crate is read from the cargo registry at the version and checksum Cargo.lock pins",
 ]
 
 
